@@ -1,10 +1,11 @@
 #!/bin/sh
-# tools/run_seeds.sh [tier]  -- apply every seeded change under /verif/seeded to /repo in turn, run the check of its property, undo; report detection
+# tools/run_seeds.sh [tier]  (SEEDS_RE=<regex on the seed id> restricts the set; TRY=tools/try_seed_copy.sh works on scratch copies)  -- apply every seeded change under /verif/seeded to /repo in turn, run the check of its property, undo; report detection
 tier=${1:-quick}
 cd /verif
 miss=0
 for d in seeded/*/; do
   id=$(basename $d); prop=${id%-*}
+  if [ -n "$SEEDS_RE" ] && ! echo "$id" | grep -Eq "$SEEDS_RE"; then continue; fi
   alt=$(sed -n 's/.*"check_property": "\(C[0-9]*\)".*/\1/p' $d/meta.json); [ -n "$alt" ] && prop=$alt
   res=$(${TRY:-tools/try_seed.sh} /verif/$d/patch.diff $prop $tier 2>&1 | head -1)
   if grep -q '"expected_detection": false' $d/meta.json; then echo "by-decision-not-flagged $id $res" | cut -c1-150; continue; fi
